@@ -346,6 +346,18 @@ class LabGen:
             self.error_defs.append(d)
             self.by_name[name] = d
 
+    def add_error(self, name, pkg, namespace, code, safe_fields, unsafe_fields):
+        """A hand-written error definition (same bookkeeping as `_build_errors`)."""
+        fs = [field(n, t) for n, t in safe_fields] + [field(n, t) for n, t in unsafe_fields]
+        self.errors.append(error(name, pkg, namespace, code, fs[:len(safe_fields)], fs[len(safe_fields):]))
+        d = TDef("object", name, pkg)
+        d.fields = [(f["fieldName"], f["type"], None) for f in fs]
+        d.is_error = True
+        d.n_safe = len(safe_fields)
+        self.error_defs.append(d)
+        self.by_name[name] = d
+        self.used_names.add(name.lower())
+
     # ---- services
     def param_type(self, kind):
         """Types legal for path / header / query parameters."""
